@@ -131,3 +131,37 @@ func registerAtomic(vm *VM) {
 		}
 	}
 }
+
+// sync.Pool: Get returns the most recently Put item, else New() (else nil). Items are
+// kept per pool cell; the real pool may drop items at any time, which the "empty
+// pool" behaviour of a first call already covers.
+func registerSyncPool(vm *VM) {
+	I := vm.intrinsics
+	I["(*sync.Pool).Put"] = func(vm *VM, _ *frame, a []Value) Value {
+		p := a[0].(*Value)
+		if vm.pools == nil {
+			vm.pools = map[*Value][]Value{}
+		}
+		old := vm.pools[p]
+		vm.undo = append(vm.undo, undoEntry{f: func() { vm.pools[p] = old }})
+		vm.pools[p] = append(append([]Value{}, old...), a[1])
+		return nil
+	}
+	I["(*sync.Pool).Get"] = func(vm *VM, _ *frame, a []Value) Value {
+		p := a[0].(*Value)
+		if items := vm.pools[p]; len(items) > 0 {
+			old := items
+			vm.undo = append(vm.undo, undoEntry{f: func() { vm.pools[p] = old }})
+			vm.pools[p] = items[:len(items)-1]
+			return items[len(items)-1]
+		}
+		// field New func() any is the last field of sync.Pool
+		st, ok := (*p).(Struct)
+		if ok && len(st) > 0 {
+			if fn := st[len(st)-1]; !isNilValue(fn) {
+				return vm.Call(fn, nil)
+			}
+		}
+		return Iface{}
+	}
+}
